@@ -52,7 +52,7 @@ def _gen_crafted(rng):
     k = rng.randint(1, 2)
     replicas = {c: sorted(rng.sample([a for a in agents if a != hosts[c]], min(k, na - 1)))
                 for c in comps}
-    script = [["run"]] if rng.random() < 0.9 else []
+    script = [["run"]]      # _agents_removal needs start_time: an event always follows a run
     if rng.random() < 0.5:
         script.append(["replicate", k])
         for a in agents:
@@ -67,8 +67,10 @@ def _gen_crafted(rng):
         if len(alive) <= 2:
             break
         leaving = sorted(rng.sample(alive, rng.randint(1, min(k, len(alive) - 2))))
-        script.append(["event", leaving])
         orphaned = [c for c in comps if cur_hosts[c] in leaving]
+        if any(not [a for a in cur_repl[c] if a not in leaving] for c in orphaned):
+            break       # an orphan without surviving replica: out of the property's hypothesis
+        script.append(["event", leaving])
         cands = sorted({a for c in orphaned for a in cur_repl[c] if a not in leaving})
         msgs = []
         for a in cands:
